@@ -22,8 +22,8 @@ PROP = dict(
         H(NS, "c09", "c09_rate", "valid RATE: remote_min' >= last poll, +1 step below the maximum, nothing else changes; the next poll is not faster", timeout=600),
         H(NS, "c09", "c09_deny", "valid DENY/RSTR on a plain source: no action, flag set, nothing else; next timer demobilises iff unreachable and tries >= 3", timeout=600),
         H(NS, "c09", "c09_other", "stratum-0 packets: NTSN/unknown codes change nothing; any KISS that does not answer the pending request changes nothing", timeout=600),
-        H(NS, "c09", "c09_rate_v5", "RATE for NTPv5 answers", tier="thorough"),
-        H(NS, "c09", "c09_deny_v5", "DENY for NTPv5 answers", tier="thorough"),
-        H(NS, "c09", "c09_other_v5", "NTSN/unknown for NTPv5 answers (15 header combinations)", tier="thorough"),
+        H(NS, "c09", "c09_rate_v5", "RATE for NTPv5 answers (incoming step only)", tier="thorough"),
+        H(NS, "c09", "c09_deny_v5", "DENY for NTPv5 answers (incoming step only)", tier="thorough"),
+        H(NS, "c09", "c09_other_v5", "NTSN/unknown for NTPv5 answers", tier="thorough"),
     ],
 )
